@@ -337,9 +337,10 @@ def spec_batch(drv, progs):
     ill-formed w.r.t. their declared signature) keep the former path; they are counted in FO_STATS["old-path-only"]."""
     from lib import Infra
     lines, meta = [], []
+    old_only = bool(os.environ.get("VERIF_SPEC_OLD"))    # the former path alone (Python grounding), for comparison runs
     for P in progs:
         line, qinst = spine.sem_line(P)
-        fo = spine.fo_sexp(P)
+        fo = None if old_only else spine.fo_sexp(P)
         meta.append((len(lines), qinst, fo is not None))
         lines.append(line)
         if fo is not None:
